@@ -148,3 +148,66 @@ SCENARIOS.append(Scenario("C05.rules.ScatterAllStatic", s_scatter_all_static,
                            ("onnxscript/rewriter/rules/common/_redundant_scatter_nd.py", "ScatterAllStatic.rewrite")],
                           kind="bounded", bound="data of rank 1-2, first dim 0..3 / named / unknown, <= 3 index rows (values symbolic)",
                           trusted=TRUST + ["ONNX ScatterND: output = data with row indices[j] replaced by (or, with a reduction, combined with) updates[j]"], max_paths=40000))
+
+
+def s_materialize_reshape(ctx):
+    """MaterializeReshapeShape: the dynamic shape input is replaced by a constant only if Reshape(data, constant,
+    allowzero=1) yields the annotated output shape for every binding: static dims verbatim, at most ONE -1 standing for
+    the only symbolic dim — and -1 is inferable (no zero among the other dims: ONNX rejects 0 together with -1 under
+    allowzero=1, and 0/0 has no answer)."""
+    import onnx_ir as ir
+    from onnxscript.rewriter.rules.common import _materialize_reshape_shape as mod
+    from onnxscript.rewriter import _ir_utils
+    I = Interp(ctx)
+    W = World(I)
+    static, rt = choose_shape(ctx, W, "out", max_rank=3, kinds=["int", "N", "unknown"])
+    data = W.value("data", dims=None, rt=[], dtype=ir.DataType.FLOAT)
+    shape_const = ctx.choose(2, "shape input already constant") == 1
+    shape_in = W.value("shape", dims=None, rt=[], dtype=ir.DataType.INT64)
+    I.models[_ir_utils.get_numpy_value] = lambda interp, v: ("array" if shape_const else None)
+    out = W.value("out", dims=static, rt=rt, dtype=ir.DataType.FLOAT)
+    context = SObj(object, "context")
+    context.fields["output_values"] = [out]
+    rule = SObj(mod.MaterializeReshapeShape, "rule")
+    try:
+        fired = I.truth(I.call(I.getattr(rule, "check"), [context, data, shape_in]))
+    except PyRaise as e:
+        ctx.check("C04.rules.MaterializeReshapeShape.check_never_raises", False, CL04)
+        return
+    if not fired:
+        ctx.cover("MaterializeReshapeShape.check_failed")
+        return
+    ctx.check("C09.rules.MaterializeReshapeShape.fires_only_for_a_dynamic_shape_input_and_an_annotated_output", (not shape_const) and static is not None, CL09)
+    if shape_const or static is None:
+        return
+    made = []
+    I.models[ir.tensor] = lambda interp, v, dtype=None, **k: (made.append((list(v), dtype)) or ("tensor", len(made)))
+    r = I.call(I.getattr(rule, "rewrite"), [OpRecorder(), data, shape_in])
+    ok = isinstance(r, Call) and r.op == "Reshape" and r.args[0] is data and isinstance(r.args[1], Call) and r.args[1].op == "Constant" \
+        and r.kwargs == {"allowzero": 1} and len(made) == 1 and made[0][1] == ir.DataType.INT64
+    ctx.check("C05.rules.MaterializeReshapeShape.replacement_is_reshape_of_data_by_a_constant_with_allowzero", ok, CL09)
+    if not ok:
+        return
+    new = made[0][0]
+    okr = len(new) == len(static)
+    ctx.check("C09.rules.MaterializeReshapeShape.constant_has_the_rank_of_the_output", okr, CL09)
+    if not okr:
+        return
+    minus = [i for i, d in enumerate(new) if isinstance(d, int) and d == -1]
+    sym = [i for i, d in enumerate(static) if not isinstance(d, (int, SInt))]
+    ctx.check("C09.rules.MaterializeReshapeShape.minus_one_stands_for_the_only_symbolic_dim", minus == sym and len(sym) <= 1, CL09)
+    for i, d in enumerate(static):
+        if isinstance(d, (int, SInt)):
+            ctx.check("C09.rules.MaterializeReshapeShape.static_dims_are_copied_verbatim", term(new[i]) == rt[i], CL09)
+    if sym:
+        others = [rt[i] for i in range(len(rt)) if i not in sym]
+        ctx.check("C09.rules.MaterializeReshapeShape.minus_one_is_inferable_no_zero_among_the_other_dims", z3.And(*[o != 0 for o in others]) if others else z3.BoolVal(True),
+                  CL09 + " — ONNX Reshape: with allowzero=1 a shape holding both 0 and -1 is invalid")
+        ctx.check("C05.rules.MaterializeReshapeShape.rewritten_reshape_is_valid_for_every_binding", z3.And(*[o != 0 for o in others]) if others else z3.BoolVal(True),
+                  "C05: 'the rewritten model yields the same outputs as before for all inputs'")
+
+
+SCENARIOS.append(Scenario("C09.rules.MaterializeReshapeShape", s_materialize_reshape,
+                          [("onnxscript/rewriter/rules/common/_materialize_reshape_shape.py", "MaterializeReshapeShape.check"),
+                           ("onnxscript/rewriter/rules/common/_materialize_reshape_shape.py", "MaterializeReshapeShape.rewrite")],
+                          kind="bounded", bound="output rank <= 3; " + BOUND, trusted=TRUST + ["ONNX Reshape: -1 is inferred from the element count; allowzero=1 forbids 0 together with -1"]))
